@@ -691,6 +691,14 @@ class LevelOverhangByConstituency:
         cty_results = self.constituency_evaluator.evaluate(
             votes, n_seats, max_seats=max_seats,
         )
+        for cty, cty_prop_seats in cty_results.items():
+            if Tie.any(cty_prop_seats):
+                # A tied seat has no owner yet, so it gives no party a minimum
+                # to level against (and a minimum for the tie object itself
+                # might never be met by the overall result).
+                raise VotingSystemError(
+                    f'cannot level overhang: tie in constituency {cty!r}'
+                )
         prop_parties = {
             party for cty_prop_seats in cty_results.values()
             for party in cty_prop_seats
